@@ -325,5 +325,29 @@ pub fn run(env: &Env) -> i32 {
         Ok(r) => rep.absorb(r),
         Err(e) => rep.health_errors.push(e),
     }
+    // thorough tier: coverage-guided campaigns on the byte-level surface (libFuzzer), once
+    // seeded with the small corpus sources and once from an empty corpus
+    if env.tier == Tier::Thorough && rep.fails.is_empty() {
+        match crate::fuzz::build(env) {
+            Err(e) => rep.health_errors.push(e),
+            Ok(()) => {
+                let runs = ((200_000.0 * env.scale) as u64).max(1000);
+                let to_case = |b: &[u8]| json!({"input": String::from_utf8_lossy(b).to_string(), "pristine": false, "mutation": "libfuzzer"});
+                for seeded in [true, false] {
+                    let c = crate::fuzz::Campaign {
+                        target: "compile",
+                        runs,
+                        max_len: 4096,
+                        seeds: if seeded { crate::fuzz::small_files(&corpus_dir(), ".ink", 6000, 200) } else { vec![] },
+                    };
+                    let r = crate::fuzz::run(env, &c);
+                    let mut c2 = c;
+                    let label = if seeded { "compile" } else { "compile(empty corpus)" };
+                    c2.target = label;
+                    crate::fuzz::absorb(&mut rep, &c2, r, &to_case, &exec);
+                }
+            }
+        }
+    }
     finish(env, rep)
 }
